@@ -273,3 +273,458 @@ Proof.
     try (repeat constructor; discriminate); try (vm_compute; reflexivity);
     try (vm_compute; discriminate).
 Qed.
+
+(* ==================================================================================== *)
+(** * END TO END, continued: INSERTED ROWS -- subtotals and differences (Proofs/ComposeVarianceSub.v)
+
+   Row subtotal kk of a slice with categorical rows: addend offsets [s_add], subtrahend offsets
+   [s_sub] (valid rows, each once, no row on both sides), computed from the tabulated blocks.
+   [rows_in ... offs j r]: r is in partition k, answered one of the row categories [offs], and is in
+   column j.  [marks3 S K A B]: the respondents of the base K with indicator +1 on A, -1 on B, 0
+   elsewhere.  The three-term formula over the Positive / Negative term blocks is the weighted
+   variance of that +1 / 0 / -1 indicator -- the general case of C11_variance_is_indicator_variance,
+   now with the respondent list, the proportion and the counts all derived from the survey.
+   ([dn && has_subs = false]: no valid counts in the response, else a difference's count is NaN;
+   [rd && has_subs = false]: rows not categorical-date, else a difference follows the wave rule.) *)
+From CC Require Import Spec.Merge Proofs.ComposeVarianceSub Proofs.VarianceProofs.
+
+Theorem C11_survey_signed_respondent_list S (K A B : Survey.resp -> bool) :
+  marks3 S K A B
+    = map (fun r => (weight r, if A r then Pos else if B r then Neg else Zero)) (filter K S) /\
+  w_tot (marks3 S K A B) == wsum S K /\
+  w_pos (marks3 S K A B) == wsum S (fun r => K r && A r) /\
+  w_neg (marks3 S K A B) == wsum S (fun r => K r && (negb (A r) && B r)).
+Proof.
+  exact (conj eq_refl (conj (marks3_w_tot S K A B) (conj (marks3_w_pos S K A B) (marks3_w_neg S K A B)))).
+Qed.
+Print Assumptions C11_survey_signed_respondent_list.
+
+Theorem C11_survey_rows_in tv vr vc kc ms mc k offs j r :
+  rows_in tv vr vc kc ms mc k offs j r
+  = pop_of tv k r && existsb (in_cat ms (ans r vr)) offs && in_el kc mc (ans r vc) j.
+Proof. exact eq_refl. Qed.
+Print Assumptions C11_survey_rows_in.
+
+(* variance of the COLUMN proportion of inserted row kk, column j *)
+Theorem C11_survey_inserted_row_column_variance S tv vr vc kc ms mc k rsubs csubs kk dn rd cd j :
+  t_ok tv -> cat_or_mr kc -> (k < t_n tv)%nat -> wf_survey S -> (kk < length rsubs)%nat ->
+  let s := nth kk rsubs nosub in
+  Forall (fun i => (i < n_valid ms)%nat) (s_add s) -> Forall (fun i => (i < n_valid ms)%nat) (s_sub s) ->
+  NoDup (s_add s) -> NoDup (s_sub s) -> (forall i, In i (s_add s) -> ~ In i (s_sub s)) ->
+  dn && has_subs s = false -> rd && has_subs s = false -> (0 < n_valid ms)%nat -> (j < nval mc)%nat ->
+  let A := rows_in tv vr vc kc ms mc k (s_add s) j in
+  let B := rows_in tv vr vc kc ms mc k (s_sub s) j in
+  let np := wsum S A in let nn := wsum S B in
+  let b := w_colbase tv k vr KCat ms vc kc mc S 0 j in
+  let C := t_counts S tv vr KCat ms vc kc mc k in
+  let CB := t_cb S tv vr KCat ms vc kc mc k in
+  match mnth (b_rows (variance_blocks C (nval ms) (nval mc) rsubs csubs
+                        (col_proportions (nval ms) (nval mc) rsubs csubs C dn rd cd CB)
+                        (col_base_blocks (nval ms) (nval mc) rsubs csubs CB))) kk j with
+  | NaN => b == 0
+  | Fin v => ~ b == 0 /\
+             v == spec_var (marks3 S (colbase_in tv k vr KCat ms vc kc mc 0 j) A B) /\
+             v == (np + nn) / b - ((np - nn) / b) * ((np - nn) / b) /\ 0 <= v
+  | Inf _ => False
+  end.
+Proof.
+  exact (fun Ht Hc Hk Hwf Hkk Ha Hs Hna Hns Hd Hdn Hrd Hp Hj =>
+    column_variance_inserted_row S tv vr vc kc ms mc k rsubs csubs kk dn rd cd
+      Ht Hc Hk Hwf Hkk Ha Hs Hna Hns Hd Hdn Hrd Hp j Hj).
+Qed.
+Print Assumptions C11_survey_inserted_row_column_variance.
+
+(* variance of the TABLE proportion of inserted row kk, column j *)
+Theorem C11_survey_inserted_row_table_variance S tv vr vc kc ms mc k rsubs csubs kk dn j :
+  t_ok tv -> cat_or_mr kc -> (k < t_n tv)%nat -> wf_survey S -> (kk < length rsubs)%nat ->
+  let s := nth kk rsubs nosub in
+  Forall (fun i => (i < n_valid ms)%nat) (s_add s) -> Forall (fun i => (i < n_valid ms)%nat) (s_sub s) ->
+  NoDup (s_add s) -> NoDup (s_sub s) -> (forall i, In i (s_add s) -> ~ In i (s_sub s)) ->
+  dn && has_subs s = false -> (0 < n_valid ms)%nat -> (j < nval mc)%nat ->
+  let A := rows_in tv vr vc kc ms mc k (s_add s) j in
+  let B := rows_in tv vr vc kc ms mc k (s_sub s) j in
+  let np := wsum S A in let nn := wsum S B in
+  let b := w_tabbase tv k vr KCat ms vc kc mc S 0 j in
+  let C := t_counts S tv vr KCat ms vc kc mc k in
+  let TB := t_tb S tv vr KCat ms vc kc mc k in
+  match mnth (b_rows (variance_blocks C (nval ms) (nval mc) rsubs csubs
+                        (table_proportions (nval ms) (nval mc) rsubs csubs C dn TB)
+                        (table_base_blocks (nval ms) (nval mc) rsubs csubs TB))) kk j with
+  | NaN => b == 0
+  | Fin v => ~ b == 0 /\
+             v == spec_var (marks3 S (tabbase_in tv k vr KCat ms vc kc mc 0 j) A B) /\
+             v == (np + nn) / b - ((np - nn) / b) * ((np - nn) / b) /\ 0 <= v
+  | Inf _ => False
+  end.
+Proof.
+  exact (fun Ht Hc Hk Hwf Hkk Ha Hs Hna Hns Hd Hdn Hp Hj =>
+    table_variance_inserted_row S tv vr vc kc ms mc k rsubs csubs kk dn
+      Ht Hc Hk Hwf Hkk Ha Hs Hna Hns Hd Hdn Hp j Hj).
+Qed.
+Print Assumptions C11_survey_inserted_row_table_variance.
+
+(* Non-vacuity: six respondents; rows categorical (4th category missing), columns categorical;
+   the DIFFERENCE (rows 0 + 2) - (row 1).  Column 0: base 3 (weights 1, 3/2, 1/2), Np = 3/2, Nn = 3/2:
+   p = 0, variance (3/2 + 3/2)/3 - 0 = 1 *)
+Example C11_survey_inserted_row_example :
+  let S := [ mkResp [ACat 0; ACat 0] 1; mkResp [ACat 1; ACat 0] (3 # 2); mkResp [ACat 2; ACat 1] 2;
+             mkResp [ACat 2; ACat 0] (1 # 2); mkResp [ACat 3; ACat 0] 4; mkResp [ACat 0; ACat 1] 1 ] in
+  let ms := [false; false; false; true] in
+  let mc := [false; false] in
+  let rsubs := [mkSub [0%nat; 2%nat] [1%nat]] in
+  let s := nth 0 rsubs nosub in
+  t_ok None /\ cat_or_mr KCat /\ (0 < t_n None)%nat /\ wf_survey S /\ (0 < length rsubs)%nat /\
+  Forall (fun i => (i < n_valid ms)%nat) (s_add s) /\ Forall (fun i => (i < n_valid ms)%nat) (s_sub s) /\
+  NoDup (s_add s) /\ NoDup (s_sub s) /\ (forall i, In i (s_add s) -> ~ In i (s_sub s)) /\
+  false && has_subs s = false /\ (0 < n_valid ms)%nat /\ nval mc = 2%nat /\
+  marks3 S (colbase_in None 0 0 KCat ms 1 KCat mc 0 0)
+           (rows_in None 0 1 KCat ms mc 0 (s_add s) 0) (rows_in None 0 1 KCat ms mc 0 (s_sub s) 0)
+    = [(1, Pos); (3 # 2, Neg); (1 # 2, Pos)] /\
+  map xred (map (fun j => mnth (b_rows (variance_blocks (t_counts S None 0 KCat ms 1 KCat mc 0) 3%nat 2%nat rsubs []
+                   (col_proportions 3%nat 2%nat rsubs [] (t_counts S None 0 KCat ms 1 KCat mc 0) false false false
+                                    (t_cb S None 0 KCat ms 1 KCat mc 0))
+                   (col_base_blocks 3%nat 2%nat rsubs [] (t_cb S None 0 KCat ms 1 KCat mc 0)))) 0%nat j) [0%nat; 1%nat])
+    = [Fin 1; Fin 0] /\
+  spec_var (marks3 S (colbase_in None 0 0 KCat ms 1 KCat mc 0 0)
+              (rows_in None 0 1 KCat ms mc 0 (s_add s) 0) (rows_in None 0 1 KCat ms mc 0 (s_sub s) 0)) == 1.
+Proof.
+  cbv zeta.
+  assert (Hd : forall i, In i [0%nat; 2%nat] -> ~ In i [1%nat]).
+  { intros i [<-|[<-|[]]] [H|[]]; discriminate H. }
+  repeat split; try (left; reflexivity); try lia; try (repeat constructor; discriminate);
+    try (repeat constructor; vm_compute; lia); try exact Hd;
+    try (constructor; [simpl; intuition lia| constructor; [simpl; tauto| constructor]]);
+    try (constructor; [simpl; tauto| constructor]);
+    try (vm_compute; reflexivity); try (vm_compute; discriminate).
+Qed.
+
+(* ---- END TO END, strands (Proofs/ComposeStrand.v, ComposeStrandVariance.v) ---------------------
+   [st_cat_var S v ms] / [st_mr_var S v ms] = strand_var_base of the strand's table proportions
+   computed from the tabulated survey (what strand_counts extracts from the payload:
+   Props/C03.v::C03_survey_strand_from_payload).  Base row i: the weighted variance of "is in
+   category i" over the respondents with a valid category (MR: of "selected item i" over those for
+   whom item i is not missing); non-negative; NaN exactly when that base is empty *)
+From CC Require Import Proofs.ComposeStrand Proofs.ComposeStrandVariance Proofs.VarianceProofs.
+
+Theorem C11_survey_strand_variance S v ms i : wf_survey S -> (i < nval ms)%nat ->
+  match vnth (st_cat_var S v ms) i with
+  | NaN => wsum S (fun r => ok_cat ms (ans r v)) == 0
+  | Fin x => ~ wsum S (fun r => ok_cat ms (ans r v)) == 0 /\
+             x == spec_var (marks S (fun r => ok_cat ms (ans r v)) (fun r => in_cat ms (ans r v) i)) /\
+             0 <= x
+  | Inf _ => False
+  end /\
+  match vnth (st_mr_var S v ms) i with
+  | NaN => wsum S (fun r => ok_mr ms (ans r v) i) == 0
+  | Fin x => ~ wsum S (fun r => ok_mr ms (ans r v) i) == 0 /\
+             x == spec_var (marks S (fun r => ok_mr ms (ans r v) i) (fun r => in_mr ms (ans r v) i)) /\
+             0 <= x
+  | Inf _ => False
+  end.
+Proof.
+  exact (fun Hwf Hi => conj (strand_cat_variance_survey S v ms Hwf i Hi)
+                            (strand_mr_variance_survey S v ms Hwf i Hi)).
+Qed.
+Print Assumptions C11_survey_strand_variance.
+
+Theorem C11_survey_strand_variance_def S v ms :
+  st_cat_var S v ms = strand_var_base (st_cat_props S v ms) /\
+  st_mr_var S v ms = strand_var_base (st_mr_props S v ms).
+Proof. exact (conj eq_refl eq_refl). Qed.
+Print Assumptions C11_survey_strand_variance_def.
+
+Example C11_survey_strand_example :
+  let S := [ mkResp [ACat 0; AMr [Sel; Oth]] (3 # 2); mkResp [ACat 2; AMr [Sel; Mis]] 2;
+             mkResp [ACat 1; AMr [Sel; Sel]] 5; mkResp [ACat 2; AMr [Oth; Sel]] (1 # 4);
+             mkResp [ACat 0; AMr [Oth; Oth]] 1 ] in
+  let mr := [false; true; false; false] in
+  wf_survey S /\ nval mr = 3%nat /\
+  map xred (st_cat_var S 0 mr) = [Fin (90 # 361); Fin (90 # 361); Fin 0] /\
+  spec_var (marks S (fun r => ok_cat mr (ans r 0)) (fun r => in_cat mr (ans r 0) 0)) == 90 # 361 /\
+  map xred (st_mr_var S 1 [false; false]) = [Fin (170 # 1521); Fin (210 # 961)].
+Proof.
+  cbv zeta. repeat split; try lia; try (repeat constructor; discriminate); vm_compute; reflexivity.
+Qed.
+
+(* ==== GenAgree (measures): what matrix/measure.py, stripe/measure.py, cubepart.py SAY NOW ==== *)
+(* Gen/MeasureSrc.v, Gen/StripeMeasureSrc.v, Gen/PartMeasureSrc.v are REWRITTEN FROM THE SOURCE on every
+   check by harness/translate/measures.py (an `ast` whitelist, fail-closed): one [option mexp] per
+   (class, member) -- per block for a `blocks` member -- read through the wiring of the collection class.
+   The theorems below say that what the source SAYS NOW ([meval] / the signed-square reading [meval_sq] of
+   the translated term, Base/MeasureExp.v), for ALL input blocks, sizes and subtotal lists, IS the
+   definition of Model.Variance the theorems above are about -- tagged shape and every in-range cell.
+   [None] on the left = the translator could not read the member (then only the correspondence ties it).
+   A change of meaning in the source breaks these obligations (Proofs/GenAgreeVariance.v fails). *)
+From Coq Require String.
+From CC Require Base.MeasureExp Model.Subtotals Model.Proportions Gen.MeasureSrc Gen.StripeMeasureSrc Gen.PartMeasureSrc Gen.Tables
+     Proofs.GenAgreeMeasTac Proofs.GenAgreeVariance.
+Section GenAgreeMeasures_C11.   (* scopes and imports below end with the section *)
+Import Coq.Strings.String CC.Base.MeasureExp CC.Model.Subtotals CC.Model.Proportions CC.Gen.MeasureSrc CC.Gen.StripeMeasureSrc
+       CC.Gen.PartMeasureSrc CC.Gen.Tables CC.Proofs.GenAgreeMeasTac CC.Proofs.GenAgreeVariance.
+Import Coq.Lists.List.ListNotations CC.Base.XQ.
+Local Close Scope Q_scope.
+Local Open Scope string_scope.
+Local Open Scope nat_scope.
+
+Theorem C11_gen_row_proportion_variances :
+  (match src_RowProportionVariances_blocks_00 with
+  | Some e => forall nr nc rsubs csubs rd cd blk cubem cubeflag flag,
+      holds_mat (menv_mat nr nc rsubs csubs rd cd blk cubem cubeflag flag) e DR DC
+        (mnth (b_base (var_model nr nc rsubs csubs blk cubem "row_proportions" "row_weighted_bases")))
+  | None => True
+  end) /\
+  (match src_RowProportionVariances_blocks_01 with
+  | Some e => forall nr nc rsubs csubs rd cd blk cubem cubeflag flag,
+      holds_mat (menv_mat nr nc rsubs csubs rd cd blk cubem cubeflag flag) e DR DCS
+        (mnth (b_cols (var_model nr nc rsubs csubs blk cubem "row_proportions" "row_weighted_bases")))
+  | None => True
+  end) /\
+  (match src_RowProportionVariances_blocks_10 with
+  | Some e => forall nr nc rsubs csubs rd cd blk cubem cubeflag flag,
+      holds_mat (menv_mat nr nc rsubs csubs rd cd blk cubem cubeflag flag) e DRS DC
+        (mnth (b_rows (var_model nr nc rsubs csubs blk cubem "row_proportions" "row_weighted_bases")))
+  | None => True
+  end) /\
+  (match src_RowProportionVariances_blocks_11 with
+  | Some e => forall nr nc rsubs csubs rd cd blk cubem cubeflag flag,
+      holds_mat (menv_mat nr nc rsubs csubs rd cd blk cubem cubeflag flag) e DRS DCS
+        (mnth (b_inter (var_model nr nc rsubs csubs blk cubem "row_proportions" "row_weighted_bases")))
+  | None => True
+  end).
+Proof. exact (conj gen_RowProportionVariances_blocks_00 (conj gen_RowProportionVariances_blocks_01 (conj gen_RowProportionVariances_blocks_10 gen_RowProportionVariances_blocks_11))). Qed.
+Print Assumptions C11_gen_row_proportion_variances.
+
+Theorem C11_gen_column_proportion_variances :
+  (match src_ColumnProportionVariances_blocks_00 with
+  | Some e => forall nr nc rsubs csubs rd cd blk cubem cubeflag flag,
+      holds_mat (menv_mat nr nc rsubs csubs rd cd blk cubem cubeflag flag) e DR DC
+        (mnth (b_base (var_model nr nc rsubs csubs blk cubem "column_proportions" "column_weighted_bases")))
+  | None => True
+  end) /\
+  (match src_ColumnProportionVariances_blocks_01 with
+  | Some e => forall nr nc rsubs csubs rd cd blk cubem cubeflag flag,
+      holds_mat (menv_mat nr nc rsubs csubs rd cd blk cubem cubeflag flag) e DR DCS
+        (mnth (b_cols (var_model nr nc rsubs csubs blk cubem "column_proportions" "column_weighted_bases")))
+  | None => True
+  end) /\
+  (match src_ColumnProportionVariances_blocks_10 with
+  | Some e => forall nr nc rsubs csubs rd cd blk cubem cubeflag flag,
+      holds_mat (menv_mat nr nc rsubs csubs rd cd blk cubem cubeflag flag) e DRS DC
+        (mnth (b_rows (var_model nr nc rsubs csubs blk cubem "column_proportions" "column_weighted_bases")))
+  | None => True
+  end) /\
+  (match src_ColumnProportionVariances_blocks_11 with
+  | Some e => forall nr nc rsubs csubs rd cd blk cubem cubeflag flag,
+      holds_mat (menv_mat nr nc rsubs csubs rd cd blk cubem cubeflag flag) e DRS DCS
+        (mnth (b_inter (var_model nr nc rsubs csubs blk cubem "column_proportions" "column_weighted_bases")))
+  | None => True
+  end).
+Proof. exact (conj gen_ColumnProportionVariances_blocks_00 (conj gen_ColumnProportionVariances_blocks_01 (conj gen_ColumnProportionVariances_blocks_10 gen_ColumnProportionVariances_blocks_11))). Qed.
+Print Assumptions C11_gen_column_proportion_variances.
+
+Theorem C11_gen_table_proportion_variances :
+  (match src_TableProportionVariances_blocks_00 with
+  | Some e => forall nr nc rsubs csubs rd cd blk cubem cubeflag flag,
+      holds_mat (menv_mat nr nc rsubs csubs rd cd blk cubem cubeflag flag) e DR DC
+        (mnth (b_base (var_model nr nc rsubs csubs blk cubem "table_proportions" "table_weighted_bases")))
+  | None => True
+  end) /\
+  (match src_TableProportionVariances_blocks_01 with
+  | Some e => forall nr nc rsubs csubs rd cd blk cubem cubeflag flag,
+      holds_mat (menv_mat nr nc rsubs csubs rd cd blk cubem cubeflag flag) e DR DCS
+        (mnth (b_cols (var_model nr nc rsubs csubs blk cubem "table_proportions" "table_weighted_bases")))
+  | None => True
+  end) /\
+  (match src_TableProportionVariances_blocks_10 with
+  | Some e => forall nr nc rsubs csubs rd cd blk cubem cubeflag flag,
+      holds_mat (menv_mat nr nc rsubs csubs rd cd blk cubem cubeflag flag) e DRS DC
+        (mnth (b_rows (var_model nr nc rsubs csubs blk cubem "table_proportions" "table_weighted_bases")))
+  | None => True
+  end) /\
+  (match src_TableProportionVariances_blocks_11 with
+  | Some e => forall nr nc rsubs csubs rd cd blk cubem cubeflag flag,
+      holds_mat (menv_mat nr nc rsubs csubs rd cd blk cubem cubeflag flag) e DRS DCS
+        (mnth (b_inter (var_model nr nc rsubs csubs blk cubem "table_proportions" "table_weighted_bases")))
+  | None => True
+  end).
+Proof. exact (conj gen_TableProportionVariances_blocks_00 (conj gen_TableProportionVariances_blocks_01 (conj gen_TableProportionVariances_blocks_10 gen_TableProportionVariances_blocks_11))). Qed.
+Print Assumptions C11_gen_table_proportion_variances.
+
+Theorem C11_gen_row_std_err :
+  (match src_RowStandardError_blocks_00 with
+  | Some e => forall nr nc rsubs csubs rd cd blk cubem cubeflag flag,
+      holds_mat_sq (menv_mat nr nc rsubs csubs rd cd blk cubem cubeflag flag) e DR DC
+        (se_model blk "row_proportion_variances" "row_weighted_bases" 0 0)
+  | None => True
+  end) /\
+  (match src_RowStandardError_blocks_01 with
+  | Some e => forall nr nc rsubs csubs rd cd blk cubem cubeflag flag,
+      holds_mat_sq (menv_mat nr nc rsubs csubs rd cd blk cubem cubeflag flag) e DR DCS
+        (se_model blk "row_proportion_variances" "row_weighted_bases" 0 1)
+  | None => True
+  end) /\
+  (match src_RowStandardError_blocks_10 with
+  | Some e => forall nr nc rsubs csubs rd cd blk cubem cubeflag flag,
+      holds_mat_sq (menv_mat nr nc rsubs csubs rd cd blk cubem cubeflag flag) e DRS DC
+        (se_model blk "row_proportion_variances" "row_weighted_bases" 1 0)
+  | None => True
+  end) /\
+  (match src_RowStandardError_blocks_11 with
+  | Some e => forall nr nc rsubs csubs rd cd blk cubem cubeflag flag,
+      holds_mat_sq (menv_mat nr nc rsubs csubs rd cd blk cubem cubeflag flag) e DRS DCS
+        (se_model blk "row_proportion_variances" "row_weighted_bases" 1 1)
+  | None => True
+  end).
+Proof. exact (conj gen_RowStandardError_blocks_00 (conj gen_RowStandardError_blocks_01 (conj gen_RowStandardError_blocks_10 gen_RowStandardError_blocks_11))). Qed.
+Print Assumptions C11_gen_row_std_err.
+
+Theorem C11_gen_column_std_err :
+  (match src_ColumnStandardError_blocks_00 with
+  | Some e => forall nr nc rsubs csubs rd cd blk cubem cubeflag flag,
+      holds_mat_sq (menv_mat nr nc rsubs csubs rd cd blk cubem cubeflag flag) e DR DC
+        (se_model blk "column_proportion_variances" "column_weighted_bases" 0 0)
+  | None => True
+  end) /\
+  (match src_ColumnStandardError_blocks_01 with
+  | Some e => forall nr nc rsubs csubs rd cd blk cubem cubeflag flag,
+      holds_mat_sq (menv_mat nr nc rsubs csubs rd cd blk cubem cubeflag flag) e DR DCS
+        (se_model blk "column_proportion_variances" "column_weighted_bases" 0 1)
+  | None => True
+  end) /\
+  (match src_ColumnStandardError_blocks_10 with
+  | Some e => forall nr nc rsubs csubs rd cd blk cubem cubeflag flag,
+      holds_mat_sq (menv_mat nr nc rsubs csubs rd cd blk cubem cubeflag flag) e DRS DC
+        (se_model blk "column_proportion_variances" "column_weighted_bases" 1 0)
+  | None => True
+  end) /\
+  (match src_ColumnStandardError_blocks_11 with
+  | Some e => forall nr nc rsubs csubs rd cd blk cubem cubeflag flag,
+      holds_mat_sq (menv_mat nr nc rsubs csubs rd cd blk cubem cubeflag flag) e DRS DCS
+        (se_model blk "column_proportion_variances" "column_weighted_bases" 1 1)
+  | None => True
+  end).
+Proof. exact (conj gen_ColumnStandardError_blocks_00 (conj gen_ColumnStandardError_blocks_01 (conj gen_ColumnStandardError_blocks_10 gen_ColumnStandardError_blocks_11))). Qed.
+Print Assumptions C11_gen_column_std_err.
+
+Theorem C11_gen_table_std_err :
+  (match src_TableStandardError_blocks_00 with
+  | Some e => forall nr nc rsubs csubs rd cd blk cubem cubeflag flag,
+      holds_mat_sq (menv_mat nr nc rsubs csubs rd cd blk cubem cubeflag flag) e DR DC
+        (se_model blk "table_proportion_variances" "table_weighted_bases" 0 0)
+  | None => True
+  end) /\
+  (match src_TableStandardError_blocks_01 with
+  | Some e => forall nr nc rsubs csubs rd cd blk cubem cubeflag flag,
+      holds_mat_sq (menv_mat nr nc rsubs csubs rd cd blk cubem cubeflag flag) e DR DCS
+        (se_model blk "table_proportion_variances" "table_weighted_bases" 0 1)
+  | None => True
+  end) /\
+  (match src_TableStandardError_blocks_10 with
+  | Some e => forall nr nc rsubs csubs rd cd blk cubem cubeflag flag,
+      holds_mat_sq (menv_mat nr nc rsubs csubs rd cd blk cubem cubeflag flag) e DRS DC
+        (se_model blk "table_proportion_variances" "table_weighted_bases" 1 0)
+  | None => True
+  end) /\
+  (match src_TableStandardError_blocks_11 with
+  | Some e => forall nr nc rsubs csubs rd cd blk cubem cubeflag flag,
+      holds_mat_sq (menv_mat nr nc rsubs csubs rd cd blk cubem cubeflag flag) e DRS DCS
+        (se_model blk "table_proportion_variances" "table_weighted_bases" 1 1)
+  | None => True
+  end).
+Proof. exact (conj gen_TableStandardError_blocks_00 (conj gen_TableStandardError_blocks_01 (conj gen_TableStandardError_blocks_10 gen_TableStandardError_blocks_11))). Qed.
+Print Assumptions C11_gen_table_std_err.
+
+Theorem C11_gen_strand_variances :
+  (match ssrc_TableProportionVariances_base_values with
+  | Some e => forall subs rd vblk,
+      holds_vec (senv_std (List.length (vblk "table_proportions" 0)) subs rd vblk no_cube) e DR
+        (vnth (strand_var_base (vblk "table_proportions" 0)))
+  | None => True
+  end) /\
+  (match ssrc_TableProportionVariances_subtotal_values with
+  | Some e => forall n subs rd vblk,
+      holds_vec (senv_std n subs rd vblk no_cube) e DRS
+        (vnth (strand_var_subtotals (vblk "weighted_counts" 0) subs
+                 (vblk "table_proportions" 1) (vblk "weighted_bases" 1)))
+  | None => True
+  end).
+Proof. exact (conj gen_stripe_TableProportionVariances_base_values gen_stripe_TableProportionVariances_subtotal_values). Qed.
+Print Assumptions C11_gen_strand_variances.
+
+Theorem C11_gen_strand_stddevs :
+  (match ssrc_TableProportionStddevs_base_values with
+  | Some e => forall n subs rd vblk,
+      holds_vec_sq (senv_std n subs rd vblk no_cube) e DR
+        (fun i => sqrt_guard (vnth (vblk "table_proportion_variances" 0) i))
+  | None => True
+  end) /\
+  (match ssrc_TableProportionStddevs_subtotal_values with
+  | Some e => forall n subs rd vblk,
+      holds_vec_sq (senv_std n subs rd vblk no_cube) e DRS
+        (fun i => sqrt_guard (vnth (vblk "table_proportion_variances" 1) i))
+  | None => True
+  end).
+Proof. exact (conj gen_stripe_TableProportionStddevs_base_values gen_stripe_TableProportionStddevs_subtotal_values). Qed.
+Print Assumptions C11_gen_strand_stddevs.
+
+Theorem C11_gen_strand_stderrs :
+  (match ssrc_TableProportionStderrs_base_values with
+  | Some e => forall n subs rd vblk,
+      holds_vec_sq (senv_std n subs rd vblk no_cube) e DR
+        (fun i => sqrt_guard (stderr_sq (vnth (vblk "table_proportion_variances" 0) i)
+                                        (vnth (vblk "weighted_bases" 0) i)))
+  | None => True
+  end) /\
+  (match ssrc_TableProportionStderrs_subtotal_values with
+  | Some e => forall n subs rd vblk,
+      holds_vec_sq (senv_std n subs rd vblk no_cube) e DRS
+        (fun i => sqrt_guard (stderr_sq (vnth (vblk "table_proportion_variances" 1) i)
+                                        (vnth (vblk "weighted_bases" 1) i)))
+  | None => True
+  end).
+Proof. exact (conj gen_stripe_TableProportionStderrs_base_values gen_stripe_TableProportionStderrs_subtotal_values). Qed.
+Print Assumptions C11_gen_strand_stderrs.
+
+Theorem C11_gen_margins_of_error :
+  (match psrc_Slice_row_proportions_moe, tbl_Z_975 with
+  | Some e, Some z => forall nr nc se,
+      holds_mat_sq (penv_std nr nc (part_names z) no_scalar (part_mat "row_std_err" se)) e DR DC
+        (fun i j => moe_sq (ssq (mnth se i j)))
+  | _, _ => True
+  end) /\
+  (match psrc_Slice_column_proportions_moe, tbl_Z_975 with
+  | Some e, Some z => forall nr nc se,
+      holds_mat_sq (penv_std nr nc (part_names z) no_scalar (part_mat "column_std_err" se)) e DR DC
+        (fun i j => moe_sq (ssq (mnth se i j)))
+  | _, _ => True
+  end) /\
+  (match psrc_Slice_table_proportions_moe, tbl_Z_975 with
+  | Some e, Some z => forall nr nc se,
+      holds_mat_sq (penv_std nr nc (part_names z) no_scalar (part_mat "table_std_err" se)) e DR DC
+        (fun i j => moe_sq (ssq (mnth se i j)))
+  | _, _ => True
+  end) /\
+  (match psrc_Strand_table_proportion_moes, tbl_Z_975 with
+  | Some e, Some z => forall n se,
+      holds_vec_sq (penv_std n 0 (part_names z) no_scalar (part_vec "table_proportion_stderrs" se)) e DR
+        (fun i => moe_sq (ssq (vnth se i)))
+  | _, _ => True
+  end).
+Proof. exact (conj gen_Slice_row_proportions_moe (conj gen_Slice_column_proportions_moe (conj gen_Slice_table_proportions_moe gen_Strand_table_proportion_moes))). Qed.
+Print Assumptions C11_gen_margins_of_error.
+
+(* non-vacuity: variance 3/16 on base 4: the translated row standard error has square 3/64 *)
+Example C11_gen_example :
+  match src_RowStandardError_blocks_00 with
+  | Some e =>
+      let blk := fun (m : string) (_ _ : nat) =>
+        if String.eqb m "row_proportion_variances" then [[Fin (Qmake 3 16)]] else [[Fin 4%Q]] in
+      match meval_sq (menv_mat 1 1 [] [] false false blk (fun _ _ => []) (fun _ _ => false) (fun _ => false)) e with
+      | VMat DR DC f => f 0 0 =x= Fin (Qmake 3 64)
+      | _ => False
+      end
+  | None => True
+  end.
+Proof. vm_compute. first [exact I | reflexivity]. Qed.
+
+End GenAgreeMeasures_C11.
